@@ -72,10 +72,17 @@ pub fn generate(seed: u64, index: u64, thorough: bool) -> Scenario {
         } else if r < 0.65 {
             ops.push(Op::ModelEval);
         } else {
-            let k = match rng.below(8) {
+            let k = match rng.below(10) {
                 0 => p,
                 1 => p + 7,
                 2 => usize::MAX,
+                // out of range, but congruent to a valid index modulo 2^32 / 2^16 / 2^8
+                3 => (1usize << 32).wrapping_mul(rng.usize_in(1, 5)) + rng.usize_in(0, p - 1),
+                4 => match rng.below(3) {
+                    0 => (1usize << 16) + rng.usize_in(0, p - 1),
+                    1 => (1usize << 8) + rng.usize_in(0, p - 1),
+                    _ => (1usize << 63) + rng.usize_in(0, p - 1),
+                },
                 _ => rng.usize_in(0, p - 1),
             };
             ops.push(Op::ModelDeriv(k));
